@@ -35,7 +35,8 @@ CTYPE = st.sampled_from([None, 'text/plain', 'application/octet-stream', 'text/p
 
 @st.composite
 def form_case(draw):
-    b0 = draw(st.one_of(st.sampled_from(['b', '--b', 'bnd', '-', 'XyZ0']), st.text(BCHARS, min_size=1, max_size=12),
+    b0 = draw(st.one_of(st.sampled_from(['b', '--b', 'bnd', '-', 'XyZ0', "'b'", "''", "'-'", '(b)', ':b:', '=b=', '.b.', "b'", "'b", '+b+', ',b,', '?b?', '/b/', '_b_',
+                                         "'abc'", '((', "''''"]), st.text(BCHARS, min_size=1, max_size=12),
                         st.text(BCHARS, min_size=30, max_size=70)))
     tok = ('\r\n--' + b0).encode()
     adversarial = st.lists(st.one_of(
